@@ -195,6 +195,13 @@ func genHistory(t *rapid.T, minBlocks, maxBlocks int, kinds []string) History {
 			h.Blocks[i+1].Txs = append(h.Blocks[i+1].Txs, HTx{K: "dao-fund", A: (a + 1) % hUsers, V: rapid.SampledFrom([]int{0, 0, 1}).Draw(t, "liquid-dao-v"), Amt: "1000"})
 		}
 		h.Blocks[i+2].Txs = append([]HTx{{K: "lv-redeem", A: (a + 1) % hUsers, B: rapid.IntRange(0, hUsers-1).Draw(t, "liquid-to"), N: 0, V: rapid.IntRange(0, 2).Draw(t, "liquid-rfrac")}}, h.Blocks[i+2].Txs...)
+		if rapid.IntRange(0, 2).Draw(t, "liquid-counter") == 0 {
+			// two liquidations (two liquid denominations), then the younger one is redeemed completely: its record goes,
+			// the denomination counter stays
+			h.Blocks[i+1].Txs[0].V = 1
+			h.Blocks[i+1].Txs = append([]HTx{h.Blocks[i+1].Txs[0], {K: "lv-liquidate", A: (a + 1) % hUsers, N: slot * 2, V: 0}}, h.Blocks[i+1].Txs[1:]...)
+			h.Blocks[i+2].Txs[0] = HTx{K: "lv-redeem", A: (a + 1) % hUsers, B: rapid.IntRange(0, hUsers-1).Draw(t, "liquid-to2"), N: 1, V: 0}
+		}
 	}
 	if has("erc20-deploy") && nb >= 4 && rapid.IntRange(0, 2).Draw(t, "erc20-scenario") == 0 {
 		// a token that is used before it is registered, then registered, then sent to the module address
